@@ -150,7 +150,7 @@ CSet(p, f) == /\ pc[p] = "CSet" /\ UseFault(f)
               /\ IF f THEN Goto(p, "RelId") /\ maps' = maps /\ dev' = dev
                  ELSE /\ Goto(p, "CApp")
                       /\ maps' = maps \cup {[id |-> p, listen |-> p, target |-> snap[p].target]}
-                      /\ dev' = IF maps # {} THEN dev \cup {"noClaim"} ELSE dev   \* deviation: second mapping of one code
+                      /\ dev' = IF ~Claim /\ maps # {} THEN dev \cup {"noClaim"} ELSE dev   \* deviation: second mapping of one code, nothing claimed
               /\ UNCHANGED <<rec, recId, expired, claim, glist, clist, idkeys, snap>>
               /\ Log(p, "CSet", f)
 
@@ -316,8 +316,14 @@ AtMostOneMappingD == AtMostOneMapping \/ "noClaim" \in dev
 AtMostOneSuccessD == AtMostOneSuccess \/ "noClaim" \in dev
 FailedLeavesNoneD == FailedLeavesNone \/ dev \cap {"createNoRb", "rbLost"} # {}
 FailedLeavesNoneR == FailedLeavesNone \/ "rbLost" \in dev
+AtMostOneMappingR == AtMostOneMapping \/ "rbLost" \in dev
 \* the repaired design never takes the deviations it removed
 NoLegacyDev == (Claim => "noClaim" \notin dev) /\ (CreateRb => "createNoRb" \notin dev)
+\* repaired design: while the code has not expired, the claim holder is the only process that can be
+\* between its claim and its return (mutual exclusion of the create-mark-update section)
+InSection(p) == pc[p] \in {"GenId", "CGet", "CSet", "CApp", "CDel", "RelId", "IdxL", "IdxT", "UpdC", "UpdI",
+                           "RbGet", "RbRemL", "RbRemT", "RbRemG", "RbDel", "RbRelId", "RelClaim"}
+ClaimExcludes == (Claim /\ ~expired) => Cardinality({p \in Acts : InSection(p)}) <= 1
 
 TypeOK == /\ rec.p \in BOOLEAN /\ recId.p \in BOOLEAN /\ expired \in BOOLEAN
           /\ claim \in Acts \cup {"none"}
